@@ -29,7 +29,7 @@ use std::{
 use serde_json::{json, Value};
 use wfcommon::util::{catch, read_ndjson};
 
-use crate::run::{deser, runner, unhex, Case, Out3, Parsed};
+use crate::run::{deser, deser_stream, runner, unhex, Case, Out3, Parsed};
 
 static CUR: AtomicI64 = AtomicI64::new(-1);
 static STARTED: AtomicU64 = AtomicU64::new(0);
@@ -98,9 +98,12 @@ struct Honest {
     parsed: Option<Parsed>,
 }
 
-fn proof_task(h: &mut Honest, bytes: &[u8], acc: &[String], compare: bool, pub_delta: u32) -> Value {
+fn proof_task(h: &mut Honest, bytes: &[u8], acc: &[String], compare: bool, pub_delta: u32, stream: bool) -> Value {
     let (de, proof) = deser(bytes);
     let mut res = json!({"de": de.json(), "len": bytes.len(), "fnv": fnv(bytes)});
+    if stream {
+        res["ds"] = deser_stream(bytes).json();
+    }
     let Some(proof) = proof else {
         return res;
     };
@@ -223,7 +226,8 @@ pub fn main(args: &[String]) -> i32 {
                             unhex(t["b"].as_str().unwrap_or(""))
                         };
                         let pd = t["pd"].as_u64().unwrap_or(0) as u32;
-                        match catch(|| proof_task(h, &bytes, &acc, true, pd)) {
+                        let stream = t["stream"].as_bool().unwrap_or(false);
+                        match catch(|| proof_task(h, &bytes, &acc, true, pd, stream)) {
                             Ok(v) => v,
                             Err(p) => json!({"tool_error": format!("harness panic: {p}")}),
                         }
